@@ -14,7 +14,8 @@
 From Coq Require Import ZArith List Bool.
 From PTK Require Import Lib.Sx Lib.Py Model.C11_Scroll Model.C11_CopyBody
      Proofs.C11_ScrollFacts Proofs.C11_CopyFacts Proofs.C11_LiveFacts Proofs.C11_WrapFacts
-     Proofs.C11_ColMapFacts Proofs.C11_SeqFacts Proofs.C11_RowsFacts Proofs.C11_Main.
+     Proofs.C11_ColMapFacts Proofs.C11_SeqFacts Proofs.C11_RowsFacts Proofs.C11_VarPrefixFacts
+     Proofs.C11_Main Proofs.C11_RenderFacts.
 Import ListNotations.
 Open Scope Z_scope.
 
@@ -96,6 +97,52 @@ Theorem C11_wrap_narrow :
 Proof. exact wrap_narrow_cursor_full. Qed.
 Print Assumptions C11_wrap_narrow.
 
+(* The same with VARIABLE-width prefixes: any get_line_prefix (per line, per
+   wrap count; e.g. prompt + continuation of different widths, or an empty
+   first-row prefix with a non-empty continuation marker) whose every prefix
+   leaves at least one cell.  [epw l k] = width of the prefix of row k of line
+   l, [capsum l k] = cells of line l that fit on its rows 0..k-1; the cursor
+   (column cxc) lies on row kc of its line iff capsum kc <= cxc < capsum (kc+1)
+   (such a kc always exists: C11_cursor_row_exists).  The cursor is registered
+   at (rows of the lines above - vertical_scroll_2 + kc, prefix + offset in the
+   row), inside the window, on the cell showing its character. *)
+Theorem C11_wrap_varprefix :
+  forall sw dw disp haspfx pfx width height xpos ypos top bottom lines cyr cxc st allow kc,
+  (forall c, sw c = 1) -> (forall c, dw c = 1) ->
+  (forall l k, epw haspfx pfx l k + 1 <= width) ->
+  1 <= height -> 0 <= top -> 0 <= bottom -> 0 <= vs st ->
+  (forall ln, In ln lines -> 1 <= len ln) ->
+  0 <= cyr < len lines -> 0 <= cxc < len (nth (Z.to_nat cyr) lines []) ->
+  capsum haspfx pfx width cyr kc <= cxc < capsum haspfx pfx width cyr (S kc) ->
+  let Hfn l := height_for_line sw haspfx pfx (nth (Z.to_nat l) lines []) l width None in
+  let tbhn s := height_for_line sw haspfx pfx (nth (Z.to_nat cyr) lines []) cyr width (Some s) in
+  let s' := scroll_wrap allow Hfn tbhn width height top bottom cyr cxc (len lines) st in
+  let o := copy_body sw dw disp true haspfx pfx width height xpos ypos lines s' in
+  let y := sumH Hfn (vs s') (Z.to_nat cyr) - vs2 s' + Z.of_nat kc in
+  let x := epw haspfx pfx cyr (Z.of_nat kc) + (cxc - capsum haspfx pfx width cyr kc) in
+  0 <= y < height /\ 0 <= x < width /\
+  alist_get (cr2 o) (cyr, cxc) = Some (y + ypos, x + xpos) /\
+  exists c, nth_error (nth (Z.to_nat cyr) lines []) (Z.to_nat cxc) = Some c /\
+            cstr (scr_get (cscr o) (y + ypos) (x + xpos)) = disp c.
+Proof. exact wrap_varprefix_cursor. Qed.
+Print Assumptions C11_wrap_varprefix.
+
+Theorem C11_cursor_row_exists : forall haspfx pfx width,
+  (forall l k, epw haspfx pfx l k + 1 <= width) ->
+  forall l v, 0 <= v -> exists k, capsum haspfx pfx width l k <= v < capsum haspfx pfx width l (S k).
+Proof. exact row_exists. Qed.
+Print Assumptions C11_cursor_row_exists.
+
+(* get_height_for_line is exact for width-1 characters and ANY such prefixes:
+   it returns the r with capsum (r-1) < n <= capsum r, the rows copy_line uses. *)
+Theorem C11_height_exact_varprefix : forall sw haspfx pfx width,
+  (forall c, sw c = 1) -> (forall l k, epw haspfx pfx l k + 1 <= width) ->
+  forall line l stop,
+  let n := len (match stop with None => line | Some s => slice_to line s end) in
+  1 <= n -> rows_rel haspfx pfx width l n (height_for_line sw haspfx pfx line l width stop).
+Proof. exact height_for_line_var. Qed.
+Print Assumptions C11_height_exact_varprefix.
+
 (* The rows shown are consecutive document lines in order: in
    visible_line_to_row_col two successive screen rows show the same document
    line or the next one - for ALL character widths, prefixes, both modes and
@@ -108,6 +155,58 @@ Theorem C11_rows_consecutive :
     l' = l \/ l' = l + 1.
 Proof. exact rows_consecutive. Qed.
 Print Assumptions C11_rows_consecutive.
+
+(* The render step ITSELF (Document row/col -> BeforeInput/TabsProcessor ->
+   trailing blank -> NumberedMargin / ScrollbarMargin widths -> scroll ->
+   _copy_body), for every configuration of the model (any margins, any prefix
+   shape incl. variable widths, any tabstop, BeforeInput, scroll offsets >= 0,
+   allow_scroll_beyond_bottom either way), width-1 characters, any previous
+   scroll state: render succeeds, the content cursor column is the processors'
+   image of the document column and maps back to it, and the screen cursor lies
+   inside the window body.  [Hdoc]: the cursor row/column computed from the text
+   address a line of the document (what Document guarantees for
+   0 <= cursor <= len text; proved for the Document model in Props/C02.v). *)
+Theorem C11_render_wrap :
+  forall g W Hh xpos ypos text cursor st,
+  (forall c, tab_sw g c = 1 /\ tab_dw g c = 1) -> 0 <= g_tabstop g ->
+  0 <= g_top g /\ 0 <= g_bottom g /\ 0 <= g_left g /\ 0 <= g_right g ->
+  1 <= Hh -> 0 <= vs st -> forall line,
+  0 <= r_row text cursor /\
+    nth_error (r_src text) (Z.to_nat (r_row text cursor)) = Some line /\
+    0 <= r_col text cursor <= len line ->
+  g_wrap g = true ->
+  (forall l k, epw (g_haspfx g) (cfg_pfx g) l k + 1 <= r_bwid g W text) ->
+  exists r ucol Y X,
+    render g W Hh xpos ypos text cursor st = Some r /\ r_status r = 0 /\
+    r_ui r = (r_row text cursor, ucol) /\
+    pl_d2s (process_line (g_bflag g) (g_before g) (g_tabstop g) TABCH1 TABCH2 (r_row text cursor) line) ucol
+      = r_col text cursor /\
+    r_cursor r = (Y, X) /\
+    ypos <= Y < ypos + Hh /\
+    xpos + r_mw r <= X < xpos + r_mw r + r_bw r /\ r_bw r = r_bwid g W text.
+Proof. exact render_wrap_cursor. Qed.
+Print Assumptions C11_render_wrap.
+
+Theorem C11_render_nowrap :
+  forall g W Hh xpos ypos text cursor st,
+  (forall c, tab_sw g c = 1 /\ tab_dw g c = 1) -> 0 <= g_tabstop g ->
+  0 <= g_top g /\ 0 <= g_bottom g /\ 0 <= g_left g /\ 0 <= g_right g ->
+  1 <= Hh -> forall line,
+  0 <= r_row text cursor /\
+    nth_error (r_src text) (Z.to_nat (r_row text cursor)) = Some line /\
+    0 <= r_col text cursor <= len line ->
+  g_wrap g = false ->
+  1 <= r_bwid g W text - (if g_haspfx g then strw (tab_sw g) (cfg_pfx g (r_row text cursor) 0) else 0) ->
+  exists r ucol Y X,
+    render g W Hh xpos ypos text cursor st = Some r /\ r_status r = 0 /\
+    r_ui r = (r_row text cursor, ucol) /\
+    pl_d2s (process_line (g_bflag g) (g_before g) (g_tabstop g) TABCH1 TABCH2 (r_row text cursor) line) ucol
+      = r_col text cursor /\
+    r_cursor r = (Y, X) /\
+    ypos <= Y < ypos + Hh /\
+    xpos + r_mw r <= X < xpos + r_mw r + r_bw r /\ r_bw r = r_bwid g W text.
+Proof. exact render_nowrap_cursor. Qed.
+Print Assumptions C11_render_nowrap.
 
 (* get_height_for_line (fast path and prefix path, with and without
    slice_stop) is exact for width-1 characters and constant-width prefixes: it
